@@ -403,7 +403,18 @@ func (r *Router) Run(ctx context.Context) (err error) {
 	verifhook.At("router.run.before_running", "", "")
 	close(r.running)
 
-	<-r.closingInProgressCh
+	select {
+	case <-r.closingInProgressCh:
+	case <-ctx.Done():
+		// The handlers which were started end together with their subscriptions and the router closes itself then.
+		// A handler that was added but never started would keep it open forever, so close the router explicitly.
+		go func() {
+			if err := r.Close(); err != nil {
+				r.logger.Error("Cannot close router", err, nil)
+			}
+		}()
+		<-r.closingInProgressCh
+	}
 	cancel()
 
 	r.logger.Info("Waiting for messages", watermill.LogFields{
